@@ -21,7 +21,7 @@ def gen_header(rng):
     out += rng.choice([b'', b'', b'\n', b'  ', b'\n\n ', b'\t'])
     for i in range(n):
         k = rng.randrange(4)
-        text = rng.choice([b' my game', b'by me', b'', b' \x8e title --', b' x=1', b'[[', b' "q', b'-', b'[==[ z'])
+        text = rng.choice([b' my game', b'by me', b'', b' \x8e title --', b' x=1', b'[[', b' "q', b'-', b'[==[ z', b'- star quest ---', b'/ by nova /--', b'// t', b'-/-'])
         if k == 0:
             out += b'--' + text + b'\n'
         elif k == 1:
@@ -107,6 +107,10 @@ def run(ctx, res):
         if len(lead) >= 1 and src.startswith(lead[0]):
             ti, bi = title_byline([src])
             to, bo = title_byline([out])
+            # what is derived: the comment without its two-character marker, stripped of blanks (nothing more)
+            if ti != lead[0][2:].strip() or (len(lead) >= 2 and len(a) > 2 and a[1][0] == 'newline' and a[2][0] == 'comment' and bi != lead[1][2:].strip()):
+                res.fail(key, 'title/byline derived from the header %r are %r/%r, not the comments without their markers' % (lead[:2], ti, bi), inp)
+                continue
             # (stats takes the byline from token 2: that is the second leading comment only in the form comment NEWLINE comment)
             if ti != to or (len(lead) >= 2 and len(a) > 2 and a[1][0] == 'newline' and a[2][0] == 'comment' and bi != bo):
                 res.fail(key, 'title/byline derived by stats changed: %r/%r -> %r/%r' % (ti, bi, to, bo), inp)
